@@ -290,3 +290,157 @@ Proof.
   destruct (N - 1 <? k) eqn:E; [apply Z.ltb_lt in E|apply Z.ltb_ge in E];
     destruct brute; repeat ok_step; lia.
 Qed.
+
+(* ================================================================ wave 2: the remaining routines *)
+Lemma eqchk_ok s a : eqchk s a a = Ok.
+Proof. unfold eqchk. rewrite Z.eqb_refl. reflexivity. Qed.
+
+Lemma eqchk_iff s a b : eqchk s a b = Ok <-> a = b.
+Proof. unfold eqchk. destruct (Z.eqb_spec a b); split; intros; congruence. Qed.
+
+Lemma sym_fill_ok s n : sym_fill s n = Ok.
+Proof. unfold sym_fill. repeat ok_step; lia. Qed.
+
+Lemma full_fill_ok s r c : full_fill s r c = Ok.
+Proof. unfold full_fill. repeat ok_step; lia. Qed.
+
+(* centerMatrix is only ever applied to square matrices; on an r x c one with r <> c it is refuted *)
+Theorem center_matrix_iff r c : center_matrix r c = Ok <-> r = c.
+Proof. unfold center_matrix. rewrite eqchk_iff. lia. Qed.
+
+Theorem diffusion_matrix_ok N : diffusion_matrix N = Ok.
+Proof. unfold diffusion_matrix. rewrite sym_fill_ok, !full_fill_ok. reflexivity. Qed.
+
+Theorem distance_matrix_ok N : distance_matrix N = Ok.
+Proof. unfold distance_matrix, center_matrix. rewrite sym_fill_ok, eqchk_ok. reflexivity. Qed.
+
+Theorem centered_kernel_matrix_ok N : centered_kernel_matrix N = Ok.
+Proof. unfold centered_kernel_matrix, center_matrix. rewrite sym_fill_ok, eqchk_ok. reflexivity. Qed.
+
+Theorem landmark_distance_matrix_ok N lm : idx_wf N lm -> landmark_distance_matrix lm N = Ok.
+Proof.
+  intros W. unfold landmark_distance_matrix, center_matrix. rewrite eqchk_ok.
+  apply seq_ok. split; [|reflexivity].
+  repeat ok_step; try lia;
+    try (eapply lm_get_ok; eauto; try lia; intros; apply chk_ok; lia).
+Qed.
+
+(* a landmark that is not a sample index is refuted (what F4-style edits of the selection would do) *)
+Theorem landmark_distance_matrix_refuted :
+  landmark_distance_matrix [0; 5] 5 = OOB 615 5 5.
+Proof. vm_compute. reflexivity. Qed.
+
+Theorem project_full_iff N D prow mlen :
+  project_full N D prow mlen = Ok <-> mlen = D /\ prow = D.
+Proof.
+  unfold project_full. rewrite !seq_ok, !eqchk_iff. split.
+  - intros (A & B & _). auto.
+  - intros (A & B). repeat split; auto. repeat ok_step. lia.
+Qed.
+
+Theorem project_full_ok N D : project_full N D D D = Ok.
+Proof. apply project_full_iff. auto. Qed.
+
+Theorem gaussian_projection_matrix_ok a b : gaussian_projection_matrix a b = Ok.
+Proof. apply full_fill_ok. Qed.
+
+(* RandomProjection with the arguments of gaussian_projection_matrix in the order of their NAMES
+   (target_dimension, current_dimension) would hand a d x D matrix to project: refuted unless d = D *)
+Theorem random_projection_unswapped_refuted N D d :
+  d <> D -> gaussian_projection_matrix d D ;; project_full N D d D <> Ok.
+Proof.
+  intros H E. apply seq_ok in E. destruct E as [_ E]. apply project_full_iff in E. lia.
+Qed.
+
+Theorem factor_analysis_ok N D d : factor_analysis N D d D = Ok.
+Proof. unfold factor_analysis. rewrite !eqchk_ok. repeat ok_step; try lia. Qed.
+
+(* ---------------------------------------------------------------- t-SNE buffers, quadtree nodes *)
+Theorem tsne_buffers_ok exact N D nd K :
+  0 <= N -> 0 <= D -> 0 <= nd -> (exact = false -> 0 <= K < N) -> tsne_buffers exact N D nd K = Ok.
+Proof.
+  intros HN HD Hnd HK. unfold tsne_buffers. destruct exact.
+  - repeat ok_step; nia.
+  - specialize (HK eq_refl). repeat ok_step; nia.
+Qed.
+
+(* with K = N (perplexity bound relaxed, or the factor 3 of K = (int)(3 * perplexity) raised) cur_P is
+   one entry short *)
+Theorem tsne_buffers_refuted : tsne_buffers false 4 2 2 4 = OOB 655 3 3.
+Proof. vm_compute. reflexivity. Qed.
+
+Theorem quadtree_node_insert_ok size : 0 <= size <= qt_capacity -> quadtree_node_insert size = Ok.
+Proof.
+  unfold qt_capacity. intros H. unfold quadtree_node_insert, qt_capacity, qt_dims.
+  apply seq_ok. split; [repeat ok_step; lia|].
+  apply seq_ok. split.
+  - destruct (size <? 1) eqn:E; [apply Z.ltb_lt in E; apply chk_ok; lia|reflexivity].
+  - repeat ok_step. lia.
+Qed.
+
+(* the invariant size <= QT_NODE_CAPACITY is kept: an entry is stored only while size < capacity *)
+Theorem quadtree_size_invariant size :
+  0 <= size <= qt_capacity -> 0 <= (if size <? qt_capacity then size + 1 else size) <= qt_capacity.
+Proof. unfold qt_capacity. intros H. destruct (size <? 1) eqn:E; [apply Z.ltb_lt in E|]; lia. Qed.
+
+(* ---------------------------------------------------------------- VP-tree construction *)
+(* draw returns (int)(u * (upper - lower - 1)) with u in [0, 1) *)
+Definition draw_wf (draw : Z -> Z -> Z) : Prop :=
+  forall lower upper, 1 < upper - lower -> 0 <= draw lower upper < upper - lower - 1.
+
+Theorem vp_build_ok n draw : draw_wf draw ->
+  forall fuel lower upper, 0 <= lower <= upper -> upper <= n -> (Z.to_nat (upper - lower) < fuel)%nat ->
+  vp_build fuel n lower upper draw = Ok.
+Proof.
+  intros Hd. induction fuel as [|fuel IH]; intros lower upper Hl Hu Hf; [lia|].
+  cbn [vp_build]. destruct (Z.eqb_spec upper lower) as [E|E]; [reflexivity|].
+  apply seq_ok. split; [apply chk_ok; lia|].
+  destruct (1 <? upper - lower) eqn:E1; [apply Z.ltb_lt in E1|reflexivity].
+  specialize (Hd lower upper E1).
+  assert (Hm : lower + 1 <= (upper + lower) / 2 < upper).
+  { split; [apply Z.div_le_lower_bound; lia | apply Z.div_lt_upper_bound; lia]. }
+  repeat ok_step; try lia.
+  - apply IH; lia.
+  - apply IH; lia.
+Qed.
+
+(* without the `upper - lower > 1` test (or with a draw outside its range) the swap leaves the array *)
+Theorem vp_build_refuted :
+  vp_build 3 2 0 2 (fun _ _ => 2) = OOB 722 2 2.
+Proof. vm_compute. reflexivity. Qed.
+
+(* ---------------------------------------------------------------- cover tree *)
+Lemma fold_max_ge l : forall s, In s l -> s <= fold_right Z.max 0 l.
+Proof. induction l as [|a l IH]; intros s H; cbn in *; [contradiction|]. destruct H as [->|H]; [lia|specialize (IH s H); lia]. Qed.
+
+Lemma fold_chk_ok site ncs l : (forall s, In s l -> 0 <= s < ncs) ->
+  fold_right (fun s r => chk site s ncs ;; r) Ok l = Ok.
+Proof.
+  induction l as [|a l IH]; intros H; cbn [fold_right]; [reflexivity|].
+  apply seq_ok. split; [apply chk_ok; apply H; left; reflexivity|apply IH; intros; apply H; right; assumption].
+Qed.
+
+(* after F28: every scale of the tree indexes inside cover_sets, however deep the tree *)
+Theorem cover_sets_access_ok scales :
+  Forall (fun s => 0 <= s) scales -> cover_sets_access true scales = Ok.
+Proof.
+  intros H. unfold cover_sets_access. rewrite Forall_forall in H.
+  apply seq_ok. split; [apply chk_ok; lia|].
+  apply fold_chk_ok. intros s Hs. pose proof (fold_max_ge scales s Hs). specialize (H s Hs). lia.
+Qed.
+
+(* before F28 (regression): a node at scale 120 of a tree with a wide distance range *)
+Theorem cover_sets_access_refuted : cover_sets_access false [3; 120] = OOB 702 120 101.
+Proof. vm_compute. reflexivity. Qed.
+
+(* the scales batch_insert assigns along a chain of self-children are non-negative (top_scale -
+   max_scale with max_scale <= top_scale decreasing), so they are valid cover-set indices *)
+Theorem bi_chain_scales_nonneg g : forall fuel top max l,
+  max <= top -> bi_chain fuel top max g = Some l -> Forall (fun s => 0 <= s) l.
+Proof.
+  induction fuel as [|fuel IH]; intros top max l Hm E; cbn [bi_chain] in E; [discriminate|].
+  destruct (g max) as [s|].
+  - destruct (bi_chain fuel top (Z.min (max - 1) s) g) as [l'|] eqn:E'; [|discriminate].
+    inversion E; subst. constructor; [lia|]. eapply IH; [|exact E']. lia.
+  - inversion E; subst. constructor; [lia|constructor].
+Qed.
